@@ -2,7 +2,7 @@
    every run from the CURRENT text of IPAddress.__init__ (with BaseIP.__init__), specialised to a `str` argument
    (coq/Gen/pysrc_ctor_gen.v: explicit version, the '/' refusal, try-IPv4-then-IPv6 with the bare `except`, the AddrFormatError
    re-raise of the explicit-version branch), is equal to the hand-written model AddrText.init_str that the theorems of Props/C01.v
-   are about, for both back-ends and all arguments; no hypothesis.  module.str_to_int (netaddr/strategy/ipv4.py, ipv6.py) is not
+   are about, for both back-ends and all arguments; no hypothesis.  Also IPAddress.__str__ = addr_str.  module.str_to_int (netaddr/strategy/ipv4.py, ipv6.py) is not
    translated here: it is the symbol py_str_to_int = AddrText.str_to_int of Model/SrcPreludeCtor.v, tied by correspondence.
    Nothing but the statement closed by `exact`, followed by Print Assumptions. *)
 From Coq Require Import String Ascii.
@@ -11,7 +11,8 @@ From NV Require Import Base.Tac Base.PyVal Base.PyStr Model.Ip Model.AddrText Mo
 Open Scope Z_scope.
 
 Theorem C01_source_tie_ctor :
-  forall be addr version flags, src_IPAddress_init_str be addr version flags = init_str be addr version flags.
+  (forall be addr version flags, src_IPAddress_init_str be addr version flags = init_str be addr version flags) /\
+  (forall be ver w v, src_IPAddress_str be ver w v = addr_str be ver v).
 Proof. exact C01_ctor_tie_ok. Qed.
 Print Assumptions C01_source_tie_ctor.
 
